@@ -334,6 +334,19 @@ impl MutableArchive {
         // Check if we're updating a special file (listfile/attributes)
         let is_internal_update = archive_name == "(listfile)" || archive_name == "(attributes)";
 
+        // A new name needs a free hash slot. Check before anything is changed so that a
+        // full table is reported as an error that leaves the archive untouched.
+        if self.find_file_entry(&archive_name)?.is_none()
+            && !self
+                .hash_table
+                .as_ref()
+                .is_some_and(|t| t.entries().iter().any(|e| e.is_empty() || e.is_deleted()))
+        {
+            return Err(Error::CapacityExceeded(format!(
+                "Hash table is full, cannot add '{archive_name}'"
+            )));
+        }
+
         // Check if file exists and if we should replace it
         let existing_block_index =
             if let Some((hash_index, entry)) = self.find_file_entry(&archive_name)? {
@@ -1093,7 +1106,13 @@ impl MutableArchive {
         let mut index = table_offset & (table_size - 1);
 
         // Linear probing to find empty or deleted slot
-        loop {
+        for probes in 0..=table_size {
+            if probes == table_size {
+                // Every slot is occupied: probing further would never terminate
+                return Err(Error::CapacityExceeded(format!(
+                    "Hash table is full, cannot add '{filename}'"
+                )));
+            }
             let entry = hash_table.get_mut(index as usize).ok_or_else(|| {
                 Error::InvalidFormat("Hash table index out of bounds".to_string())
             })?;
